@@ -210,6 +210,43 @@ func TestLookupGCP(t *testing.T) {
 	}
 }
 
+// TestLookupEvents: closest-peers lookups whose event consumer is scheduled like any other actor (SlowEv): while
+// it does not read, the lookup blocks publishing and further answers queue up behind it. The traces are judged
+// by EventsTrace.tla only (what the events claim against what the delivered answers named); the lockstep
+// monitor DhtTrace.tla is not applied to them.
+func TestLookupEvents(t *testing.T) {
+	e := getEnv(t)
+	rec := newRecorder(t, e, "lookup-events", "trace = scenario x schedule (deliveries and event consumption interleaved); distinct by event-sequence hash")
+	defer rec.Close(t, e)
+	if e.Replay != "" {
+		d, err := loadReplay(e.Replay)
+		if err != nil {
+			t.Fatal(err)
+		}
+		ch := &sim.ReplayChooser{Seq: d.Choices}
+		evs := runLookup(t, d.Scenario, ch)
+		rec.Record(evs, replayDesc{d.Scenario, ch.Taken()}, true)
+		return
+	}
+	r := rand.New(rand.NewSource(e.Seed))
+	n := 150
+	if e.Tier == "thorough" {
+		n = 3000
+	}
+	if e.Budget > 0 {
+		n = e.Budget
+	}
+	for i := 0; i < n; i++ {
+		sc := genLookupScenario(r, "gcp", i%3 == 0)
+		sc.SlowEv = true
+		sc.Alpha = 3
+		ch := sim.NewRandomChooser(r.Int63())
+		evs := runLookup(t, sc, ch)
+		rec.Record(evs, replayDesc{sc, ch.Taken()}, true)
+		rec.Count("slow_event_runs", 1)
+	}
+}
+
 func randVal(r *rand.Rand) string {
 	switch r.Intn(6) {
 	case 0:
